@@ -643,8 +643,8 @@ def case(arg):
                                    "pages_of_source": src_pages[:6], "links_with_that_text": wrong[:6], "b_files": B["files"], "a_files": A["files"]}})
         # ---- precedence: pages of A entities whose names B defines are never linked
         for e in B["clashes"]:
-            if not e.tracer:
-                continue
+            if not e.tracer or hasattr(e, "alias_of"):
+                continue  # (the page behind an alias is the page of another name: links to it prove nothing about this clash)
             tp = pages_of(a_pages, e)
             # the A entity may legitimately be referenced when a B module imports it explicitly
             referenced = any(r["target"] is e or (r["target"].tracer and r["target"].tracer == e.tracer) for r in B["refs"])
